@@ -181,7 +181,7 @@ def validate_one(module, path, acts, cfg=None, xmx="2g", timeout=1800, extra_env
         env.update(extra_env)
     t0 = time.time()
     rc, out = tlc(module, cfg=cfg, env=env, xmx=xmx, timeout=timeout, deque=True)
-    res = {"file": path, "fails": [], "done": None, "total": None, "states": 0, "distinct": 0,
+    res = {"file": path, "module": module, "fails": [], "done": None, "total": None, "states": 0, "distinct": 0,
            "rc": rc, "wall": time.time() - t0, "tool_error": None}
     for line in _join_printed(out):
         m = RE_FAIL.match(line)
@@ -440,21 +440,24 @@ class Check:
                 pass
             if r["done"] != r["total"] and not r["fails"]:
                 hist, ev = history_of(r["file"], (r["done"] or 0) + 1)
-                if (ev or {}).get("ev") == "abort" and ABORT_OWNER.get(ev.get("what"), owner) != owner:
+                abort_owner = "C14" if _kind_tag(hist).endswith(":oom") else ABORT_OWNER.get((ev or {}).get("what"), owner)
+                if (ev or {}).get("ev") == "abort" and abort_owner != owner:
                     log("note: process abort during %s is owned by %s, not reported by %s" % (
-                        ev.get("what"), ABORT_OWNER.get(ev.get("what")), owner))
+                        ev.get("what"), abort_owner, owner))
                     self.cov.setdefault("foreign_aborts", []).append(ev.get("what"))
                     continue
                 if (ev or {}).get("ev") == "abort":
                     self.violation("abort:%s:%s" % (ev.get("what"), _kind_tag(hist)),
                                    "the library aborted the process during %s (signal %s)" % (ev.get("what"), ev.get("signal")),
-                                   {"kind": "trace", "file": r["file"], "event_index": (r["done"] or 0) + 1,
+                                   {"kind": "trace", "module": r.get("module"), "file": r["file"],
+                                    "event_index": (r["done"] or 0) + 1,
                                     "event": ev, "history": hist, "driver_cmd": driver_cmd})
                     continue
                 self.violation("unmatched:%s" % (ev or {}).get("ev", "?"),
                                "event %d of %s is not a step of the specification: %s" % (
                                    (r["done"] or 0) + 1, os.path.basename(r["file"]), json.dumps(ev)[:300]),
-                               {"kind": "trace", "file": r["file"], "event_index": (r["done"] or 0) + 1,
+                               {"kind": "trace", "module": r.get("module"), "file": r["file"],
+                                "event_index": (r["done"] or 0) + 1,
                                 "event": ev, "history": hist, "driver_cmd": driver_cmd})
             for (idx, pairs) in r["fails"]:
                 mine = [n for (p, n) in pairs if p == owner]
@@ -466,8 +469,8 @@ class Check:
                     sig = "%s:%s" % (name, kind)
                     self.violation(sig, "obligation %s false at event %d of %s: %s" % (
                         name, idx, os.path.basename(r["file"]), json.dumps(ev)[:400]),
-                        {"kind": "trace", "file": r["file"], "event_index": idx, "obligation": name,
-                         "event": ev, "history": hist, "driver_cmd": driver_cmd})
+                        {"kind": "trace", "module": r.get("module"), "file": r["file"], "event_index": idx,
+                         "obligation": name, "event": ev, "history": hist, "driver_cmd": driver_cmd})
 
     def sample(self, obj):
         if len(self.cov["samples"]) < 6:
